@@ -139,24 +139,22 @@ Proof. exact outside_nomatch. Qed.
 Print Assumptions C19_outside_bucket_is_nomatch.
 
 (* FastEnforcer.enforce = Enforcer.enforce (result AND the index is handed back unchanged, filter cleared),
-   for the order-insensitive effectors, cache keys on fields the matcher compares by equality, rules of the
-   declared length, a request that reaches the key positions — EXCEPT under empty_rule_quirk (known finding
+   for EVERY request (whatever its length), the order-insensitive effectors, cache keys on fields the matcher
+   compares by equality and rules of the declared length — EXCEPT under empty_rule_quirk (known finding
    C19/empty-key-request) *)
-Theorem C19_decide_equal_partial : forall k0 k1 k s p l req a b,
+Theorem C19_decide_equal_partial : forall k0 k1 k s p l req,
   R k0 k1 p l ->
   admissible k k0 = true -> admissible k k1 = true -> k_eff k <> PR ->
   (forall r, In r l -> length r = p_arity k) ->
-  nth_error req k0 = Some a -> nth_error req k1 = Some b ->
   empty_rule_quirk k0 k1 k s p req = false ->
   fe_enforce k0 k1 k s p req = (p, plain_enforce k s l req).
 Proof. exact decide_equal. Qed.
 Print Assumptions C19_decide_equal_partial.
 
-Theorem C19_decide_equal_after_any_history_partial : forall k0 k1 k s ops req a b,
+Theorem C19_decide_equal_after_any_history_partial : forall k0 k1 k s ops req,
   Forall (wf_op k0 k1) ops ->
   admissible k k0 = true -> admissible k k1 = true -> k_eff k <> PR ->
   (forall r, In r (fst (prun [] ops)) -> length r = p_arity k) ->
-  nth_error req k0 = Some a -> nth_error req k1 = Some b ->
   empty_rule_quirk k0 k1 k s (fst (frun k0 k1 fp_new ops)) req = false ->
   snd (fe_enforce k0 k1 k s (fst (frun k0 k1 fp_new ops)) req) = plain_enforce k s (fst (prun [] ops)) req.
 Proof. exact decide_equal_after_history. Qed.
@@ -168,11 +166,15 @@ Theorem C19_plain_is_mgmt_enforcer : forall k s req,
 Proof. exact plain_is_mgmt. Qed.
 Print Assumptions C19_plain_is_mgmt_enforcer.
 
-(* a request that does not reach a cache-key position raises IndexError before the enabled / arity checks *)
-Theorem C19_short_request_raises : forall k0 k1 k s p req,
-  nth_error req k0 = None \/ nth_error req k1 = None -> fe_enforce k0 k1 k s p req = (p, Err EIndex).
-Proof. exact short_request_raises. Qed.
-Print Assumptions C19_short_request_raises.
+(* a request that does not reach a cache-key position takes the ordinary path: exactly the plain enforcer's
+   answer (True when enforcement is disabled, "invalid request size" otherwise), whatever rules are stored, any
+   effector, and the index is untouched *)
+Theorem C19_short_request_like_plain : forall k0 k1 k s p l req,
+  admissible k k0 = true -> admissible k k1 = true ->
+  nth_error req k0 = None \/ nth_error req k1 = None ->
+  fe_enforce k0 k1 k s p req = (p, plain_enforce k s l req).
+Proof. exact short_request_like_plain. Qed.
+Print Assumptions C19_short_request_like_plain.
 
 (* ---------- refuted parts (each witness replayed on the implementation is a listed finding) ---------- *)
 (* known finding C19/empty-key-request: every hypothesis of C19_decide_equal_partial but the guard *)
@@ -185,14 +187,6 @@ Theorem C19_empty_key_request_refuted :
     /\ snd (fe_enforce 2 1 k s p req) = Ok true /\ plain_enforce k s l req = Ok false.
 Proof. exact empty_key_request_refuted. Qed.
 Print Assumptions C19_empty_key_request_refuted.
-
-(* known finding C19/short-request-indexed-first *)
-Theorem C19_short_request_refuted :
-  exists k s p l req,
-    R 2 1 p l /\ m_enabled s = false
-    /\ snd (fe_enforce 2 1 k s p req) = Err EIndex /\ plain_enforce k s l req = Ok true.
-Proof. exact short_request_refuted. Qed.
-Print Assumptions C19_short_request_refuted.
 
 (* the priority effector: same answers and same set, but update moves a rule to the end of its bucket while
    the list rewrites in place; the first deciding rule differs and so does the decision *)
@@ -218,14 +212,18 @@ Example C19_example_history :
 Proof. vm_compute. repeat split; reflexivity. Qed.
 
 (* the hypotheses of C19_decide_equal_after_any_history_partial hold of that history with the ACL matcher and a
-   request that selects a non-empty bucket, and one that selects an empty bucket with non-empty key fields *)
+   request that selects a non-empty bucket, one that selects an empty bucket with non-empty key fields, and a
+   request that does not reach the key positions *)
 Example C19_example_decide_hypotheses :
   Forall (wf_op 2 1) ex_ops /\ admissible K_ACL 2 = true /\ admissible K_ACL 1 = true /\ k_eff K_ACL <> PR
   /\ (forall r, In r (fst (prun [] ex_ops)) -> length r = p_arity K_ACL)
   /\ empty_rule_quirk 2 1 K_ACL (s_on K_ACL) (fst (frun 2 1 fp_new ex_ops)) [1006; 1008; 1009] = false
   /\ snd (fe_enforce 2 1 K_ACL (s_on K_ACL) (fst (frun 2 1 fp_new ex_ops)) [1006; 1008; 1009]) = Ok true
   /\ empty_rule_quirk 2 1 K_ACL (s_on K_ACL) (fst (frun 2 1 fp_new ex_ops)) [1006; 1011; 1009] = false
-  /\ snd (fe_enforce 2 1 K_ACL (s_on K_ACL) (fst (frun 2 1 fp_new ex_ops)) [1006; 1011; 1009]) = Ok false.
+  /\ snd (fe_enforce 2 1 K_ACL (s_on K_ACL) (fst (frun 2 1 fp_new ex_ops)) [1006; 1011; 1009]) = Ok false
+  (* a request shorter than a key position: disabled -> True, enabled -> invalid request size *)
+  /\ snd (fe_enforce 2 1 K_ACL (s_off K_ACL) (fst (frun 2 1 fp_new ex_ops)) [1006]) = Ok true
+  /\ snd (fe_enforce 2 1 K_ACL (s_on K_ACL) (fst (frun 2 1 fp_new ex_ops)) [1006]) = Err EArity.
 Proof.
   split; [repeat constructor; unfold wf; vm_compute; discriminate|].
   repeat split; try (vm_compute; reflexivity); try discriminate.
